@@ -103,6 +103,9 @@ def generate(prop, seed, tier):
                   "reload": S.wpick([(None, 3), ("scale", 1), ("drop", 1), ("rename", 1), ("plain", 1)])}
             if S.chance(0.5):
                 op["fault"] = S.wpick([({"kind": "short_read", "n": S.pick([1, 7, 64, 1000])}, 3), ({"kind": "eio_read", "after": S.pick([0, 10, 100, 1000, 5000])}, 3)])
+            elif S.chance(0.3):
+                op["relative"] = True
+                op["reload"] = None
             ops.append(op)
         elif kind == "plot2d":
             c = _gen_contour(S)
@@ -372,6 +375,11 @@ def do_load(run, scen, op, si, root):
         stamps.append(t)
         lines.append(t.strftime("%Y-%m-%d-%H") + sep + sep.join(txt))
     path = os.path.join(root, f"l{si}.txt")
+    if op.get("relative"):
+        # the user's own copy under a relative name that also exists in the package's checkout, read
+        # from his project directory
+        os.makedirs(os.path.join(root, f"proj{si}", "datasets"), exist_ok=True)
+        path = os.path.join(root, f"proj{si}", "datasets", "ec-benchmark_dataset_A_1year.txt")
     nl = "\r\n" if op.get("crlf") else "\n"
     with open(path, "w", newline="") as f:
         f.write(nl.join(lines) + (nl if op["final_newline"] else "") + (nl + nl if op.get("blank_tail") and op["final_newline"] else ""))
@@ -384,7 +392,16 @@ def do_load(run, scen, op, si, root):
         try:
             import pathlib
 
-            df = read_ec_benchmark_dataset(pathlib.Path(path) if (op["fseed"] % 4 == 0 and fault is None) else path)
+            if op.get("relative"):
+                cwd0 = os.getcwd()
+                os.chdir(os.path.join(root, f"proj{si}"))
+                try:
+                    df = read_ec_benchmark_dataset(os.path.join("datasets", "ec-benchmark_dataset_A_1year.txt"))
+                finally:
+                    os.chdir(cwd0)
+                run.count("probe:relative-path-from-another-working-directory")
+            else:
+                df = read_ec_benchmark_dataset(pathlib.Path(path) if (op["fseed"] % 4 == 0 and fault is None) else path)
         except Exception as e:  # noqa: BLE001
             exc = e
         fired = {k: v for k, v in fs.stats.items() if k.startswith("fired_")}
